@@ -234,13 +234,16 @@ class SequentialPlanValidator(engines.engine.Engine, mixins.PlanValidatorMixin):
                         metric.is_minimize_action_costs()
                         or metric.is_minimize_sequential_plan_length()
                     ):
+                        # metrics on the final state do not depend on the last action
+                        # (and the plan may be empty)
+                        last_ai = plan.actions[-1] if plan.actions else None
                         metric_value = evaluate_quality_metric(
                             simulator,
                             metric,
                             metric_value,
                             trace[-1],
-                            ai.action,
-                            ai.actual_parameters,
+                            last_ai.action if last_ai is not None else None,  # type: ignore
+                            last_ai.actual_parameters if last_ai is not None else tuple(),
                             trace[-1],
                         )
                     metric_evaluations = {metric: metric_value}
